@@ -30,6 +30,11 @@ import TorrentVerif.Model.Path
   * File names are byte strings; pyben hands non-UTF-8 keys to Python as `bytes`, which makes
     `os.path.join` raise `TypeError` – out of scope (metafile rejected).
   * progress bar and log messages are not modelled; `cb` is `counted`.
+  * BEP 47 padding entries (commit 3952851): `FileRec.pad` is `attr == "p"` of a v1 `files` entry;
+    `_find_matches` takes `bytes(stop - start)` for a padding node (`padPart`, `stop = length`
+    for `-1`) without looking up, reading or copying anything; `_match_v1` neither marks nor
+    counts padding nodes; `self.filenames` (`v1Filenames`) leaves them out.  v2 records and the v1
+    single-file record have `pad = false`.
   * v2 file tree: a dict with the key `""` is a file (`MetaTree.file`), anything else a directory;
     a metafile whose `""` entry has no `length` makes `Metadata` raise `KeyError` (not modelled).
   * `_match_v1`/`_match_v2` thread the filesystem state through the `copypath` calls; inside one
@@ -50,12 +55,14 @@ inductive Op
   | copy (src dst : Path)
 deriving DecidableEq, Repr
 
-/-- a file record of `Metadata.files` (`path` is only used in a log message) -/
+/-- a file record of `Metadata.files` (`path` is only used in a log message); `pad` is
+    `f.get("attr") == "p"` of a v1 `files` entry (BEP 47 padding file), `False` everywhere else -/
 structure FileRec where
   full : Bytes
   filename : Bytes
   length : Nat
   root : Option Bytes
+  pad : Bool
 deriving DecidableEq, Repr
 
 /-- `filemap`: file name ↦ candidates `(location, size)` in enumeration order -/
@@ -129,17 +136,23 @@ namespace Impl
 
 /-! ### `Metadata.extract` -/
 
-/-- v1 `info["files"]` entry: `(path elements, length)`.  `none` = `IndexError` on `path[-1]`
-    (empty path list): the `Metadata` constructor raises and the metafile is not processed. -/
-def extractV1Multi (name : Bytes) : List (List Bytes × Nat) → Option (List FileRec)
+/-- v1 `info["files"]` entry: `(path elements, length, attr == "p")`.  `none` = `IndexError` on
+    `path[-1]` (empty path list): the `Metadata` constructor raises and the metafile is not
+    processed. -/
+def extractV1Multi (name : Bytes) : List (List Bytes × Nat × Bool) → Option (List FileRec)
   | [] => some []
-  | (path, len) :: rest =>
+  | (path, len, pad) :: rest =>
     match path.getLast?, extractV1Multi name rest with
-    | some fn, some r => some (⟨joinAll name path, fn, len, none⟩ :: r)
+    | some fn, some r => some (⟨joinAll name path, fn, len, none, pad⟩ :: r)
     | _, _ => none
 
+/-- `self.filenames` of a v1 multi-file metafile: the names `_index_contents` looks for; padding
+    entries are left out -/
+def v1Filenames (files : List FileRec) : List Bytes :=
+  (files.filter (fun r => !r.pad)).map (·.filename)
+
 /-- v1 single file (`"length" in info`) -/
-def extractV1Single (name : Bytes) (len : Nat) : List FileRec := [⟨name, name, len, none⟩]
+def extractV1Single (name : Bytes) (len : Nat) : List FileRec := [⟨name, name, len, none, false⟩]
 
 /-- v2 `file tree`: a dict whose value has the key `""` is a file, otherwise a directory -/
 inductive MetaTree
@@ -152,7 +165,7 @@ def parseTree (partials : List Bytes) : List (Bytes × MetaTree) → List FileRe
   | [] => []
   | (key, val) :: rest => parseEntry partials key val ++ parseTree partials rest
 def parseEntry (partials : List Bytes) (key : Bytes) : MetaTree → List FileRec
-  | .file len root => [⟨pathlibStr (partials ++ [key]), key, len, root⟩]
+  | .file len root => [⟨pathlibStr (partials ++ [key]), key, len, root, false⟩]
   | .dir es => parseTree (partials ++ [key]) es
 end
 
@@ -255,6 +268,13 @@ def runCalls (ds : Nat) : FS → List (Path × Path) → List Op
 
 /-! ### `PieceNode._find_matches` -/
 
+/-- what a padding node contributes: `bytes(stop - start)` with `stop = length` for `-1` -/
+def padPart (pn : PathNode) : Bytes := zeros (pn.stop.getD pn.file.length - pn.start)
+
+/-- the bytes a node contributes to the piece when its file has contents `d` -/
+def nodePart (pn : PathNode) (d : Bytes) : Bytes :=
+  if pn.file.pad then padPart pn else getPart pn.start pn.stop d
+
 /-- `none` = `False`; `some calls` = `True` together with the `copypath(loc, dest_path)` calls
     made on the way back up, in execution order (deepest node first).  All reads happen before
     the first copy, so the reads use the state `fs` at entry. -/
@@ -262,6 +282,8 @@ def findMatches (H1 : Bytes → Bytes) (fs : FS) (filemap : FileMap) (dest : Pat
     List PathNode → Bytes → Option (List (Path × Path))
   | [], data => if H1 data = piece then some [] else none
   | pn :: rest, data =>
+    if pn.file.pad then findMatches H1 fs filemap dest piece rest (data ++ padPart pn)
+    else
     match filemap.lookup pn.file.filename with
     | none => none
     | some cands =>
@@ -283,7 +305,8 @@ def findMatches (H1 : Bytes → Bytes) (fs : FS) (filemap : FileMap) (dest : Pat
 def markCopied (dest : Path) : List Bytes → List PathNode → List Bytes × List Bytes
   | copied, [] => (copied, [])
   | copied, pn :: rest =>
-    if pn.file.full ∈ copied then markCopied dest copied rest
+    if pn.file.pad then markCopied dest copied rest
+    else if pn.file.full ∈ copied then markCopied dest copied rest
     else
       let r := markCopied dest (copied ++ [pn.file.full]) rest
       (r.1, (if (safeJoin dest pn.file.full).isSome then [pn.file.full] else []) ++ r.2)
@@ -408,18 +431,20 @@ def DestReady (fs : FS) (dest : Path) : Prop :=
 instance (fs : FS) (dest : Path) : Decidable (DestReady fs dest) := by
   unfold DestReady; infer_instance
 
-/-- a combination of candidates for the path nodes of a piece: for every node one readable
-    same-name same-size candidate `(location, contents)` -/
+/-- a combination of candidates for the path nodes of a piece: for every node that is not a
+    padding node one readable same-name same-size candidate `(location, contents)`; the entry
+    for a padding node is a placeholder (padding files are not looked up) -/
 def Combo (fs : FS) (filemap : FileMap) : List PathNode → List (Path × Bytes) → Prop
   | [], [] => True
   | pn :: ps, c :: cs =>
-    (∃ cands sz, filemap.lookup pn.file.filename = some cands ∧ (c.1, sz) ∈ cands ∧
+    (pn.file.pad = false → ∃ cands sz, filemap.lookup pn.file.filename = some cands ∧ (c.1, sz) ∈ cands ∧
       sz = pn.file.length ∧ fs.readFile? c.1 = some c.2) ∧ Combo fs filemap ps cs
   | _, _ => False
 
-/-- the bytes such a combination contributes to the piece (what is handed to SHA-1) -/
+/-- the bytes such a combination contributes to the piece (what is handed to SHA-1); a padding
+    node contributes zeros -/
 def comboData : List PathNode → List (Path × Bytes) → Bytes
-  | pn :: ps, c :: cs => Impl.getPart pn.start pn.stop c.2 ++ comboData ps cs
+  | pn :: ps, c :: cs => Impl.nodePart pn c.2 ++ comboData ps cs
   | _, _ => []
 
 /-- the filemap describes the search directories: every candidate is a regular file of the
@@ -434,36 +459,41 @@ def IntactV2 (rootOf : Bytes → Bytes) (fs : FS) (filemap : FileMap) (r : FileR
   ∃ cands p d, filemap.lookup r.filename = some cands ∧ (p, r.length) ∈ cands ∧
     fs.readFile? p = some d ∧ (r.length ≠ 0 → r.root = some (rootOf d))
 
-/-- an intact copy of every v1 file is among the candidates: `orig` are the original contents
-    of the files in metafile order -/
+/-- in the original payload a padding entry stands for zero bytes (BEP 47) -/
+def PadsAreZeros (files : List FileRec) (orig : List Bytes) : Prop :=
+  ∀ (i : Nat) (r : FileRec), files[i]? = some r → r.pad = true → orig[i]? = some (zeros r.length)
+
+/-- an intact copy of every v1 file that is not a padding entry is among the candidates: `orig`
+    are the original contents of the entries in metafile order -/
 def IntactV1 (fs : FS) (filemap : FileMap) (files : List FileRec) (orig : List Bytes) : Prop :=
-  ∀ (i : Nat) (r : FileRec), files[i]? = some r → ∃ cands loc o, filemap.lookup r.filename = some cands ∧
+  ∀ (i : Nat) (r : FileRec), files[i]? = some r → r.pad = false → ∃ cands loc o, filemap.lookup r.filename = some cands ∧
     (loc, r.length) ∈ cands ∧ fs.readFile? loc = some o ∧ orig[i]? = some o
 
 /-- no partial decoy: a same-name same-size candidate that agrees with the original on the range
     of the file covered by some piece is identical to the original -/
 def NoPartialDecoy (fs : FS) (filemap : FileMap) (pieceNodes : List (Bytes × List PathNode))
     (orig : List Bytes) : Prop :=
-  ∀ pp ∈ pieceNodes, ∀ pn ∈ pp.2, ∀ cands loc d o, filemap.lookup pn.file.filename = some cands →
+  ∀ pp ∈ pieceNodes, ∀ pn ∈ pp.2, pn.file.pad = false →
+    ∀ cands loc d o, filemap.lookup pn.file.filename = some cands →
     (loc, pn.file.length) ∈ cands → fs.readFile? loc = some d → orig[pn.idx]? = some o →
     Impl.getPart pn.start pn.stop d = Impl.getPart pn.start pn.stop o → d = o
 
-/-- the accepted destinations of different file records are different and not nested (true of
+/-- the accepted destinations of different (non-padding) file records are different and not nested (true of
     every metafile made from a real directory tree) -/
 def DestsSeparate (dest : Path) (files : List FileRec) : Prop :=
   ∀ (i j : Nat) (ri rj : FileRec) (di dj : Path), files[i]? = some ri → files[j]? = some rj →
-    Impl.safeJoin dest ri.full = some di → Impl.safeJoin dest rj.full = some dj → dj <+: di → i = j
+    ri.pad = false → rj.pad = false → Impl.safeJoin dest ri.full = some di → Impl.safeJoin dest rj.full = some dj → dj <+: di → i = j
 
-/-- nothing exists yet at the accepted destinations (rebuild into a fresh directory) -/
+/-- nothing exists yet at the accepted destinations of the (non-padding) files (rebuild into a fresh directory) -/
 def DestFresh (fs : FS) (dest : Path) (files : List FileRec) : Prop :=
-  ∀ r ∈ files, ∀ d, Impl.safeJoin dest r.full = some d → fs d = none
+  ∀ r ∈ files, r.pad = false → ∀ d, Impl.safeJoin dest r.full = some d → fs d = none
 
 /-- the hypothesis of known finding KF-C13-1: for the FIRST piece that has a node of a file, a
     same-name same-size candidate that is enumerated BEFORE an intact copy `c` of the file and
     agrees with the original on the node's range is identical to the original -/
 def NoFirstPieceDecoy (fs : FS) (filemap : FileMap) (pieceNodes : List (Bytes × List PathNode))
     (orig : List Bytes) : Prop :=
-  ∀ pre pp post, pieceNodes = pre ++ pp :: post → ∀ pn ∈ pp.2,
+  ∀ pre pp post, pieceNodes = pre ++ pp :: post → ∀ pn ∈ pp.2, pn.file.pad = false →
     (∀ pp' ∈ pre, ∀ pn' ∈ pp'.2, pn'.idx ≠ pn.idx) →
     ∀ cands l1 c l2 o, filemap.lookup pn.file.filename = some cands → cands = l1 ++ c :: l2 →
       c.2 = pn.file.length → fs.readFile? c.1 = some o → orig[pn.idx]? = some o →
@@ -490,6 +520,17 @@ def fs2 : FS := FS.ofList [([], .dir), ([[100]], .dir), ([[115]], .dir), ([[115]
 def fmap2 : FileMap := [([102], [([[115], [107], [102]], 4), ([[115], [102]], 4)])]
 /-- the same files with the original enumerated first: `{"f": [("/s/f", 4), ("/s/k/f", 4)]}` -/
 def fmap3 : FileMap := [([102], [([[115], [102]], 4), ([[115], [107], [102]], 4)])]
+/-- a world for a metafile with a padding entry: `/s/a` = 1 2 3 and `/s/b` = 5 6 -/
+def fsP : FS := FS.ofList [([], .dir), ([[100]], .dir), ([[115]], .dir),
+  ([[115], [97]], .file [1, 2, 3]), ([[115], [98]], .file [5, 6])]
+/-- `{"a": [("/s/a", 3)], "b": [("/s/b", 2)]}` – no entry for the padding file -/
+def fmapP : FileMap := [([97], [([[115], [97]], 3)]), ([98], [([[115], [98]], 2)])]
+/-- `T/a` (3 bytes), the padding entry `T/.pad/1` (1 byte), `T/b` (2 bytes); piece length 4 -/
+def filesP : List FileRec :=
+  [⟨[84,47,97], [97], 3, none, false⟩, ⟨[84,47,46,112,97,100,47,49], [49], 1, none, true⟩,
+   ⟨[84,47,98], [98], 2, none, false⟩]
+/-- the payload: the padding entry stands for one zero byte -/
+def origP : List Bytes := [[1, 2, 3], [0], [5, 6]]
 end Rebuild.Ex
 
 end TorrentVerif
